@@ -455,7 +455,7 @@ impl FixtureDatabase {
 
             let (start_char, end_char) = self.find_function_name_position(content, line, func_name);
 
-            let is_third_party = file_path.to_string_lossy().contains("site-packages")
+            let is_third_party = self.is_in_site_packages(file_path)
                 || self.is_editable_install_third_party(file_path);
             let is_plugin = self.plugin_fixture_files.contains_key(file_path);
 
@@ -624,7 +624,7 @@ impl FixtureDatabase {
                             );
 
                             let is_third_party =
-                                file_path.to_string_lossy().contains("site-packages")
+                                self.is_in_site_packages(file_path)
                                     || self.is_editable_install_third_party(file_path);
                             let is_plugin = self.plugin_fixture_files.contains_key(file_path);
                             let definition = FixtureDefinition {
